@@ -38,20 +38,29 @@ theorem replaceCallSpread_Er (cfg : Config) (cx : Cx) (lo hi : Nat) (member' mem
         ([] ++ [.assign "=" (tempIdent s.counter) (assignRight member' .expr) csp])
         ([] ++ [exprOrSpread (tempIdent s.counter) .expr]) s1 = RA at hL ⊢
       obtain ⟨⟨xs, asg3, args3⟩, s3⟩ := RA
-      obtain ⟨new, more, ea, eg, ta, inn, c3, A, B⟩ := hL
+      obtain ⟨new, more, ea, eg, ta, inn, nb, c3, A, B⟩ := hL
       dsimp only at ea eg c3 A B ⊢
       refine ⟨by omega, ?_⟩
       intro e1 tag he
       simp only [Option.some.injEq, Prod.mk.injEq] at he
       obtain ⟨rfl, -⟩ := he
       subst ea eg
-      intro σ hσ
-      obtain ⟨F, Δm, eF, sF, wF⟩ := hm σ hσ
-      have hmem : eraseAsg σ ([] ++ [.assign "=" (tempIdent s.counter) (assignRight member' .expr) csp])
+      have hnbArgs : noBlkL ([] ++ [exprOrSpread (tempIdent s.counter) .expr] ++ more) = true := by
+        simp [noBlk_exprOrSpread .expr (noBlk_tempIdent _), nb]
+      intro m hbr σ hσ
+      obtain ⟨first'', asg3'', rfl, hfirst, hasg⟩ := ddParen_BRg_inv hbr hnbArgs
+      obtain ⟨c'', xs'', rfl, hcc, hxs⟩ := hfirst.call_inv
+      rw [BRg_noBlk (noBlk_member (noBlk_tempIdent _) (noBlk_pname _ _)) hcc]
+      obtain ⟨k1, new'', rfl, hk1, hnew⟩ := BRgL.append_inv hasg
+      simp only [List.nil_append] at hk1
+      obtain ⟨am'', rfl, ham⟩ := BRgL.single_inv hk1
+      obtain ⟨member'', rfl, hmem''⟩ := tempAssign_BRg_inv ham
+      obtain ⟨F, Δm, eF, sF, wF⟩ := hm member'' hmem'' σ hσ
+      have hmem : eraseAsg σ [.assign "=" (tempIdent s.counter) (assignRight member'' .expr) csp]
           = (s.counter, F) :: (Δm ++ σ) := by
-        simp only [List.nil_append, eraseAsg]
+        simp only [eraseAsg]
         rw [erase_tempAssign]
-        obtain ⟨a, b⟩ := erase_assignRight σ (Δm ++ σ) member' F .expr eF sF.2.2
+        obtain ⟨a, b⟩ := erase_assignRight σ (Δm ++ σ) member'' F .expr eF sF.2.2
         rw [a, b]
       have hσ1 : cx.ext ((s.counter, F) :: (Δm ++ σ)) := by
         have : ((s.counter, F) :: (Δm ++ σ)) = ([(s.counter, F)] ++ Δm) ++ σ := by simp
@@ -64,18 +73,22 @@ theorem replaceCallSpread_Er (cfg : Config) (cx : Cx) (lo hi : Nat) (member' mem
         have := hw.h2 _ hb
         dsimp only at this
         omega
-      obtain ⟨Δa, eA, wA⟩ := A _ hσ1
-      obtain ⟨Xs, Δ3, eXs, sXs, wXs⟩ := B _ [] hσ1 (Avoid.nil _ _) (AvoidP.nil _)
+      obtain ⟨Δa, eA, wA⟩ := A new'' hnew _ hσ1
+      obtain ⟨Xs, Δ3, eXs, sXs, wXs⟩ := B new'' xs'' hnew hxs _ [] hσ1 (Avoid.nil _ _) (AvoidP.nil _)
       simp only [List.nil_append] at eXs
-      have hall : AllTA ([] ++ [.assign "=" (tempIdent s.counter) (assignRight member' .expr) csp] ++ new) :=
-        AllTA.append (allTA_single _ _ _) ta
+      have hall : AllTA ([.assign "=" (tempIdent s.counter) (assignRight member'' .expr) csp] ++ new'') := by
+        refine AllTA.append ?_ (ta.BRg hnew)
+        intro a ha'
+        simp only [List.mem_singleton] at ha'
+        subst ha'
+        simp [isTempAssign, tempIdent]
       have hinert : InertL ([] ++ [exprOrSpread (tempIdent s.counter) .expr] ++ more) := by
         refine InertL.append ?_ inn
         intro a ha'
         simp only [List.nil_append, List.mem_singleton] at ha'
         subst ha'
         exact inert_exprOrSpread _ (inert_temp _ _)
-      have henv : eraseAsg σ ([] ++ [.assign "=" (tempIdent s.counter) (assignRight member' .expr) csp] ++ new)
+      have henv : eraseAsg σ ([.assign "=" (tempIdent s.counter) (assignRight member'' .expr) csp] ++ new'')
           = Δa ++ ((s.counter, F) :: (Δm ++ σ)) := by
         rw [eraseAsg_append, hmem, eA]
       -- the first erased argument is still a spread
@@ -143,7 +156,7 @@ theorem replaceCallWithoutCallee_Er (cfg : Config) (cx : Cx) (lo hi : Nat) (name
         generalize replaceArgs .replace csp (Generated.callMethodName == Generated.applyMethodName) cargs'
           [] [Node.arg none (.ident (.user method) isp), .arg none (.ident (.user "undefined") csp)] s = RA at hL ⊢
         obtain ⟨⟨xs, asg3, args3⟩, s3⟩ := RA
-        obtain ⟨new, more, ea, eg, ta, inn, c3, A, B⟩ := hL
+        obtain ⟨new, more, ea, eg, ta, inn, nb, c3, A, B⟩ := hL
         dsimp only at ea eg c3 A B ⊢
         simp only [List.nil_append] at ea
         refine ⟨c3, ?_⟩
@@ -151,21 +164,26 @@ theorem replaceCallWithoutCallee_Er (cfg : Config) (cx : Cx) (lo hi : Nat) (name
         simp only [Option.some.injEq, Prod.mk.injEq] at he
         obtain ⟨rfl, -⟩ := he
         subst ea eg
-        intro σ hσ
-        obtain ⟨Δa, eA, wA⟩ := A σ hσ
-        have hσa : cx.ext (eraseAsg σ asg3) := by rw [eA]; exact Cx.ext_append hσ (wA.avoidCx hw)
-        obtain ⟨Xc, Δc, eC, sC, wC⟩ := hc _ hσa
+        have hnbArgs : noBlkL ([Node.arg none (.ident (.user method) isp), .arg none (.ident (.user "undefined") csp)] ++ more) = true := by
+          simp [noBlk_arg (noBlk_ident _ _), nb]
+        intro m hbr σ hσ
+        obtain ⟨first'', asg'', rfl, hfirst, hasg⟩ := ddParen_BRg_inv hbr hnbArgs
+        obtain ⟨c'', xs'', rfl, hcc, hxs⟩ := hfirst.call_inv
+        rw [BRg_noBlk (noBlk_ident _ _) hcc]
+        obtain ⟨Δa, eA, wA⟩ := A asg'' hasg σ hσ
+        have hσa : cx.ext (eraseAsg σ asg'') := by rw [eA]; exact Cx.ext_append hσ (wA.avoidCx hw)
+        obtain ⟨Xc, Δc, eC, sC, wC⟩ := hc _ (BRg.refl _) _ hσa
         have hC0 : Xc = .ident (.user method) isp ∧ Δc = [] := by
           simp only [erase] at eC
           have h1 := congrArg Prod.fst eC
           have h2 := congrArg Prod.snd eC
           simp only at h1 h2
           refine ⟨h1.symm, ?_⟩
-          have : (Δc ++ eraseAsg σ asg3).length = (eraseAsg σ asg3).length := by rw [← h2]
+          have : (Δc ++ eraseAsg σ asg'').length = (eraseAsg σ asg'').length := by rw [← h2]
           simp only [List.length_append] at this
           exact List.eq_nil_of_length_eq_zero (by omega)
         obtain ⟨rfl, rfl⟩ := hC0
-        obtain ⟨Xs, Δ3, eXs, sXs, wXs⟩ := B σ [] hσ (Avoid.nil _ _) (AvoidP.nil _)
+        obtain ⟨Xs, Δ3, eXs, sXs, wXs⟩ := B asg'' xs'' hasg hxs σ [] hσ (Avoid.nil _ _) (AvoidP.nil _)
         simp only [List.nil_append] at eXs
         have hinert : InertL ([Node.arg none (.ident (.user method) isp), .arg none (.ident (.user "undefined") csp)] ++ more) := by
           refine InertL.append ?_ inn
@@ -175,7 +193,7 @@ theorem replaceCallWithoutCallee_Er (cfg : Config) (cx : Cx) (lo hi : Nat) (name
           · exact inert_arg (inert_user _ _)
           · exact inert_arg (inert_user _ _)
         refine ⟨.call (.ident (.user method) isp) Xs csp, Δ3 ++ Δa, ?_, ?_, ?_⟩
-        · rw [erase_ddParen _ _ _ _ _ _ hinert ta]
+        · rw [erase_ddParen _ _ _ _ _ _ hinert (ta.BRg hasg)]
           rw [erase_call_plain _ _ _ _ (by rfl)]
           simp only [erase]
           rw [eXs, eA]
